@@ -19,7 +19,7 @@ Print Assumptions C01_varint_shortest.
 
 (* the writer is the protocol's canonical compact size; the helper VarInt::get_varint_bytes agrees with it (post-fix) *)
 Theorem C01_write_varint_is_compact : forall n, write_varint n = compact n.
-Proof. intros n. symmetry. apply compact_eq_write_varint. Qed.
+Proof. exact write_varint_is_compact. Qed.
 Print Assumptions C01_write_varint_is_compact.
 Theorem C01_get_varint_bytes_eq_write_varint : forall n, get_varint_bytes n = write_varint n.
 Proof. exact get_varint_bytes_eq_write_varint. Qed.
@@ -87,16 +87,24 @@ Theorem C01_accessors_report_decoded :
 Proof. exact accessors_report_decoded. Qed.
 Print Assumptions C01_accessors_report_decoded.
 
+(* the same for EVERY accepted byte string, canonical or not: the decoder accepts it too and reads the same version,
+   lock time, ids, indices, sequences and values; each script is the decoder's raw bytes run through the script
+   parser (coinbase data verbatim) — so outside C02's class its serialisation is those raw bytes *)
+Theorem C01_parse_decode_agree :
+  forall bs t, tx_from_bytes bs = Ok t ->
+    exists d, decode_tx_spec bs = Some d
+      /\ version t = f_version (d_fields d) /\ locktime t = f_locktime (d_fields d)
+      /\ Forall2 in_agrees (inputs t) (f_ins (d_fields d)) /\ Forall2 out_agrees (outputs t) (f_outs (d_fields d)).
+Proof. exact parse_decode_agree. Qed.
+Print Assumptions C01_parse_decode_agree.
+
 (* the same on any value (parsed or built): accessors are functions of the raw fields *)
 Theorem C01_accessors_of_fields :
   forall (H : bytes -> bytes) t oc,
     tx_size t = N.of_nat (length (encode_tx_spec (fields_of t))) /\ tx_id H t = rev (H (encode_tx_spec (fields_of t)))
     /\ tx_outpoints t = spec_outpoints (fields_of t) /\ tx_is_coinbase t = spec_is_coinbase (fields_of t)
     /\ ((spec_total_out (fields_of t) < 18446744073709551616)%N -> satoshis_out oc t = Ok (spec_total_out (fields_of t))).
-Proof.
-  intros H t oc. exact (conj (tx_size_spec t) (conj (tx_id_spec H t) (conj (tx_outpoints_spec t)
-                       (conj (tx_is_coinbase_spec t) (satoshis_out_spec oc t))))).
-Qed.
+Proof. exact accessors_of_fields. Qed.
 Print Assumptions C01_accessors_of_fields.
 
 Theorem C01_is_coinbase_iff :
